@@ -16,6 +16,7 @@ package standard
 import (
 	"context"
 	"fmt"
+	"sync"
 	"time"
 
 	"github.com/attestantio/go-eth2-client/api"
@@ -35,6 +36,11 @@ func (s *Service) scheduleAttestations(ctx context.Context,
 		// Nothing to do.
 		return
 	}
+
+	// Obtaining the duties and setting up their jobs must not be interleaved with a refresh,
+	// otherwise jobs for duties that the refresh has replaced could be set up after it.
+	s.attesterDutiesMutex.Lock()
+	defer s.attesterDutiesMutex.Unlock()
 
 	started := time.Now()
 	s.log.Trace().Uint64("epoch", uint64(epoch)).Msg("Scheduling attestations")
@@ -83,6 +89,7 @@ func (s *Service) scheduleAttestations(ctx context.Context,
 		}
 	}
 
+	var wg sync.WaitGroup
 	currentSlot := s.chainTimeService.CurrentSlot()
 	for _, duty := range duties {
 		// Do not schedule attestations for past slots (or the current slot if so instructed).
@@ -106,7 +113,9 @@ func (s *Service) scheduleAttestations(ctx context.Context,
 		s.pendingAttestations[duty.Slot()] = true
 		s.pendingAttestationsMutex.Unlock()
 
+		wg.Add(1)
 		go func(duty *attester.Duty) {
+			defer wg.Done()
 			jobTime := s.chainTimeService.StartOfSlot(duty.Slot()).Add(s.maxAttestationDelay)
 			if err := s.scheduler.ScheduleJob(ctx,
 				"Attest",
@@ -119,6 +128,7 @@ func (s *Service) scheduleAttestations(ctx context.Context,
 			}
 		}(duty)
 	}
+	wg.Wait()
 	s.log.Trace().Dur("elapsed", time.Since(started)).Msg("Scheduled attestations")
 }
 
